@@ -17,7 +17,7 @@ static std::vector<SetterDesc> setter_table() {
     std::vector<SetterDesc> t;
 #define API_PAIR(Q, T, N, A, R) { typedef decltype(setter_arg(&Q::N)) Arg; int ns = nsamples<Arg>(); \
     if (ns) t.push_back(SetterDesc{#T, #N, &make_q<Q>, [](PDU& p, int k) -> bool { \
-        try { static_cast<Q&>(p).N(sample<Arg>(k)); return true; } catch (exception_base&) { return false; } }, ns}); }
+        try { static_cast<Q&>(p).N(sample<Arg>(k)); return true; } catch (std::exception& e_) { if (!mc::tins_exc(e_)) throw; return false; } }, ns}); }
 #include "api.inc"
 #undef API_PAIR
     return t;
@@ -66,7 +66,7 @@ static void histories(const char* cname, const std::vector<int>& types, AddFn ad
                 const Op& op = ops[cur[i]];
                 name += (op.is_add ? "add" : "rem") + std::to_string(op.type) + "." + std::to_string(op.len) + ",";
                 try { if (op.is_add) add(q, op.type, op.len); else rem(q, op.type); }
-                catch (exception_base&) { ok = false; }
+                catch (std::exception& e_) { if (!mc::tins_exc(e_)) throw; ok = false; }
             }
             if (ok) { PDU* raw = o.release(); PDU* top = wrap(raw); if (top->pdu_type() != PDU::RAW && raw->inner_pdu() == 0 && raw->pdu_type() != PDU::DHCP) { }
                       check_packet(top, name); R.count("histories"); }
